@@ -1,5 +1,7 @@
 pub mod c02;
 pub mod c07;
+pub mod c11;
+pub mod c15;
 pub mod c16;
 pub mod c18;
 pub mod c19;
@@ -11,6 +13,8 @@ pub fn run(id: &str, tier: Tier) -> Option<i32> {
     Some(match id {
         "C02" => c02::run(tier),
         "C07" => c07::run(tier),
+        "C11" => c11::run(tier),
+        "C15" => c15::run(tier),
         "C16" => c16::run(tier),
         "C18" => c18::run(tier),
         "C19" => c19::run(tier),
@@ -31,6 +35,10 @@ pub fn replay(property: &str, part: &str, case: &serde_json::Value) -> Option<Re
         ("C20", "histories") => replay_part(&c20::Histories, case, 1),
         ("C19", "histories") => replay_part(&c19::Histories, case, 5),
         ("C02", "traffic") => replay_part(&c02::Traffic(4_000_000), case, 1),
+        ("C11", "calls") => replay_part(&c11::Calls, case, 1),
+        ("C15", "codec") => replay_part(&c15::Codec, case, 1),
+        ("C15", "network") => replay_part(&c15::Net, case, 1),
+        ("C15", "no-limit") => replay_part(&c15::NoLimit, case, 1),
         _ => return None,
     })
 }
